@@ -82,15 +82,23 @@ def _mk(name, regime="normal"):
     return ob
 
 
+def _expressible(name):
+    """state attributes without a field in the shipped .proto (the hitch angle of KST states) are outside the property"""
+    from commonroad.scenario_definition.protobuf_format.generated_scripts import obstacle_pb2
+
+    return not (name.endswith(".KST") and "hitch_angle" not in obstacle_pb2.State.DESCRIPTOR.fields_by_name)
+
+
 for _n in xmlrt.SKELETONS:
-    _mk(_n)
+    if _expressible(_n):
+        _mk(_n)
 for _n in ("static.rectangle", "dynamic.trajectory.KS", "planning.rectangle"):
     _mk(_n, "tiny")
 
 
 # ---- clauses of C02 that go beyond C01 -------------------------------------------------------------------------
 @obligation("C02", "optional.sign-first-occurrence-virtual", functions=F,
-            bounds="one traffic sign with symbolic virtual flag, 0..2 first occurrences, symbolic position or no position")
+            bounds="one traffic sign with symbolic virtual flag, 0..2 first occurrences, symbolic position")
 def sign_optional(V):
     warnings.filterwarnings("ignore")
     sc = xmlrt.base_scenario()
@@ -100,8 +108,8 @@ def sign_optional(V):
     n_first = V.choice("n_first_occurrences", 3)
     first = set([1, 2][:n_first])
     virt = V.bool("virtual")
-    has_pos = V.choice("has_position", 2) == 1
-    pos = np.array([V.real("x", -1000, 1000), V.real("y", -1000, 1000)]) if has_pos else None
+    has_pos = True  # the property quantifies over signs with explicit positions
+    pos = np.array([V.real("x", -1000, 1000), V.real("y", -1000, 1000)])
     sign = TrafficSign(10, [TrafficSignElement(TrafficSignIDGermany.MAX_SPEED, ["30"])], first, pos, virt)
     net.add_traffic_sign(sign, set())
     sc.add_objects(net)
@@ -234,8 +242,8 @@ def stub_vs_real(V):
     warnings.filterwarnings("ignore")
     from symex.api import ConcV
 
-    idx = V.choice("skeleton", len(xmlrt.SKELETONS))
-    name = list(xmlrt.SKELETONS)[idx]
+    names = [n for n in xmlrt.SKELETONS if _expressible(n)]
+    name = names[V.choice("skeleton", len(names))]
 
     class Mid(ConcV):
         def _get(self, n):
@@ -267,4 +275,16 @@ def stub_vs_real(V):
 
 _W = "commonroad.common.writer.file_writer_protobuf:"
 _R = "commonroad.common.reader.file_reader_protobuf:"
-MUTANTS = []
+MUTANTS = [
+    dict(name="point-y-from-x", target=_W + "PointMessage.create_message", old="point_msg.y = point[1]", new="point_msg.y = point[0]", only="roundtrip.lanelets"),
+    dict(name="interval-end-from-start", target=_W + "FloatIntervalMessage.create_message", old="float_interval_msg.end = interval.end",
+         new="float_interval_msg.end = interval.start", only="roundtrip.planning.rectangle.normal"),
+    dict(name="horn-not-written", target=_W + "SignalStateMessage.create_message", old="            if hasattr(signal_state, attr):",
+         new='            if hasattr(signal_state, attr) and attr != "horn":', only="roundtrip.dynamic.signals"),
+    dict(name="virtual-inverted-on-read", target=_R + "TrafficSignFactory.create_from_message", old="traffic_sign.virtual = traffic_sign_msg.virtual",
+         new="traffic_sign.virtual = not traffic_sign_msg.virtual", only="optional.sign"),
+    dict(name="light-offset-dropped", target=_R + "TrafficLightFactory.create_from_message", old='HasField("time_offset")', new='HasField("time_offset") and False',
+         only="roundtrip.signs-lights"),
+    dict(name="zero-orientation-not-written", target=_W + "RectangleMessage.create_message", old="rectangle_msg.orientation = rectangle.orientation",
+         new="rectangle_msg.orientation = rectangle.orientation + 1e-12", only="roundtrip.static.rectangle.normal"),
+]
